@@ -540,6 +540,9 @@ class Namer:
 
 def fresh(t, name, namer, objfactory=None):
     """a fresh unconstrained symbolic value of type t.  Returns (value, [constraints])"""
+    if isinstance(t, str) and t.startswith("enum:"):
+        z = z3.Int(namer(name))
+        return VInt(z), [z >= 0, z < len(t[5:].split(","))]
     t = parse_type(t)
     k = t.kind
     cons = []
